@@ -360,5 +360,10 @@ class ConnectionProblem(Spec):
         return [("canary", z3.BoolVal(sum(len(v) for v in out.post["ws"].fields["__dictdata__"].values()) == 3))]
 
 
+def extra_checks(rep, tier):
+    from contracts import grid_mutable
+    grid_mutable.grid_check(rep, tier, "C47")
+
+
 def contracts(tier):
     return [Push(), Failure_(), Done(), FinishPublishingWiring(), GotWriteAnswer(), ConnectionProblem()]
